@@ -565,7 +565,9 @@ loopbreak:
 	L.Call(1, 1)
 	ret := L.reg.Pop()
 	modv := L.GetField(loaded, name)
-	if ret != LNil && modv == loopdetection {
+	if ret != LNil && (modv == loopdetection || modv == LNil || modv == LFalse) {
+		// the value the loader returns is the module, also when the loader
+		// has taken the marker out of package.loaded again
 		L.SetField(loaded, name, ret)
 		L.Push(ret)
 	} else if modv == loopdetection {
